@@ -36,6 +36,35 @@ theorem getMatchForGate_lengths (cs : List CalDef) (g : Gate) (c : CalDef)
   simp only [toCal16, toGate16, List.length_map] at hp hq
   exact ⟨hq, hp⟩
 
+/-- "no calibration matches the gate", on the real identifiers -/
+theorem noMatch_gate_iff (cals : Cals) (g : Gate) :
+    NoMatch E cals (.gate g) ↔ ∀ c ∈ cals.cals, ¬ GateMatchesAst E c g := by
+  simp only [NoMatch, toCals16, List.mem_map]
+  constructor
+  · intro h c hc hm
+    obtain ⟨i, hi, rfl⟩ := List.getElem_of_mem hc
+    refine h _ ⟨(cals.cals[i], i), ?_, rfl⟩ ((gateMatches_iff E cals.cals g _ hc i).mpr hm)
+    simp [List.mem_zipIdx_iff_getElem?]
+  · rintro h d ⟨⟨c, i⟩, hci, rfl⟩ hm
+    have hc : c ∈ cals.cals := by
+      have := List.mem_zipIdx_iff_getElem?.mp hci
+      exact List.mem_of_getElem? this
+    exact h c hc ((gateMatches_iff E cals.cals g c hc i).mp hm)
+
+
+/-- "no calibration matches the measurement", on the real identifiers -/
+theorem noMatch_measurement_iff (cals : Cals) (m : Measurement) :
+    NoMatch E cals (.measurement m) ↔ ∀ c ∈ cals.mcals, ¬ MeasMatchesAst c m := by
+  simp only [NoMatch, toMCals16, List.mem_map]
+  constructor
+  · intro h c hc hm
+    obtain ⟨i, hi, rfl⟩ := List.getElem_of_mem hc
+    refine h _ ⟨(cals.mcals[i], i), ?_, rfl⟩ ((measMatches_iff _ m i).mpr hm)
+    simp [List.mem_zipIdx_iff_getElem?]
+  · rintro h d ⟨⟨c, i⟩, hci, rfl⟩ hm
+    have hc : c ∈ cals.mcals := List.mem_of_getElem? (List.mem_zipIdx_iff_getElem?.mp hci)
+    exact h c hc ((measMatches_iff c m i).mp hm)
+
 /-! ## Substitution -/
 
 /-- **"with the gate's qubits and parameters substituted for the calibration's variables"**: on every plain
@@ -130,6 +159,55 @@ theorem expand_fixpoint (cals : Cals) (fuel : Nat) (prev : List Instruction) (i 
 theorem expand_none_noMatch (cals : Cals) (fuel : Nat) (prev : List Instruction) (i : Instruction)
     (h : expandInner E cals fuel prev i = .ok none) : NoMatch E cals i :=
   expandInnerWith_sound E codeSubst cals fuel _ i _ h
+
+/-- the specification determines the expansion: the big-step relation relates an instruction list to at most
+one result (the winner is unique by C16, everything else is a function of it) -/
+theorem expands_deterministic (S : Subst) (cals : Cals) (is o1 o2 : List Instruction)
+    (h1 : Expands E S cals is o1) (h2 : Expands E S cals is o2) : o1 = o2 :=
+  Expands.deterministic E h1 o2 h2
+
+/-- the calibrations of the known finding's witness -/
+def kfCals : Cals := { cals := [], mcals := [kfCal] }
+def kfMove (r : MemRef) : Instruction := .move { destination := r, source := .literalInteger 1 }
+
+theorem kf_match : getMatchForMeasurement kfCals.mcals kfMeasure = some kfCal := by
+  simp [getMatchForMeasurement, kfCals, C16.getMatchForMeasurement, toMCals16, toMCal16, toMeas16, kfCal,
+    kfMeasure, C16.measScan, C16.measClass, toQubit16, C16.firstExtend, List.zipIdx]
+
+/-- **negation of the full statement on the whole pipeline**: for `DEFCAL MEASURE 0 addr: MOVE addr 1` the
+code expands `MEASURE 0 ro[2]` to `MOVE addr[0] 1`, which the specification does NOT relate to it (it relates
+`MOVE ro[2] 1`, and only that).  For every simplifier oracle and every faithful instruction key. -/
+theorem expand_counterexample (hkey : Function.Injective E.key) :
+    expandInner E kfCals 2 [] (.measurement kfMeasure) = .ok (some [kfMove ⟨"addr", 0⟩]) ∧
+    ¬ Expands E specSubst kfCals [.measurement kfMeasure] [kfMove ⟨"addr", 0⟩] := by
+  have hne : E.key (kfMove ⟨"addr", 0⟩) ≠ E.key (.measurement kfMeasure) := by
+    intro h; have := hkey h; simp [kfMove] at this
+  constructor
+  · have h1 : oneStep E codeSubst kfCals (.measurement kfMeasure) =
+        some ([kfMove ⟨"addr", 0⟩], .measureCalibration kfCal.identifier) := by
+      simp only [oneStep, kf_match]
+      simp [kfCal, codeSubst, measSubstCode, measQubitExpansions, substituteQubitVariables,
+        measureTargetSubst, kfMeasure, kfMove]
+    have h2 : oneStep E codeSubst kfCals (kfMove ⟨"addr", 0⟩) = none := by simp [oneStep, kfMove]
+    have hc : ([E.key (.measurement kfMeasure)] : List κ).contains (E.key (kfMove ⟨"addr", 0⟩)) = false := by
+      simpa using hne
+    simp only [expandInner, List.map_nil]
+    unfold expandInnerWith
+    simp only [List.contains_nil, Bool.false_eq_true, if_false, h1, expandSeq]
+    unfold expandInnerWith
+    simp only [hc, Bool.false_eq_true, if_false, h2]
+  · intro hbad
+    have hw : MeasWinner kfCals.mcals kfMeasure kfCal := getMatchForMeasurement_some kf_match
+    have hbody : Expands E specSubst kfCals (kfCal.instructions.map (specSubst.meas kfCal kfMeasure))
+        [kfMove ⟨"ro", 2⟩] := by
+      have : kfCal.instructions.map (specSubst.meas kfCal kfMeasure) = [kfMove ⟨"ro", 2⟩] := by
+        simp [kfCal, specSubst, measSubstSpec, kfMeasure, mapQubits, retargetInstr, retargetPragma, mapMemRefs,
+          mapDirectRefs, mapExprs, retarget, mapArithOperand, kfMove]
+      rw [this]
+      exact Expands.keep (by simp [kfMove, NoMatch]) Expands.nil
+    have hgood := Expands.meas (E := E) (S := specSubst) (cals := kfCals) hw hbody Expands.nil
+    have := Expands.deterministic E hbad _ hgood
+    simp [kfMove] at this
 
 /-! ## The program level (`Program::expand_calibrations`) -/
 
